@@ -547,6 +547,65 @@ def closed_world(repo_index):
     return recs
 
 
+def m_language(repo_index):
+    """C15: the literal transition table of make_dfa_for_m against the DEFINITION of the
+    pin-sequence language M (words over U, D, L, R in which vertical and horizontal letters
+    alternate).  Decided exactly by a product construction over the table read from the AST."""
+    name = "PinWords.make_dfa_for_m:language-is-M"
+    f = repo_index.funcs.get("PinWords.make_dfa_for_m")
+    if f is None:
+        return [_rec(name, "language", "PinWords.make_dfa_for_m", "undecided", "function not found")]
+    call = None
+    for node in ast.walk(f.node):
+        if isinstance(node, ast.Call) and isinstance(node.func, ast.Name) and node.func.id == "DFA":
+            call = node
+    if call is None:
+        return [_rec(name, "language", f.qualname, "undecided", "no literal DFA(...) constructor in the body")]
+    consts = {}
+    tree = repo_index.modules.get(f.module)
+    for n in tree.body:
+        if isinstance(n, ast.Assign) and len(n.targets) == 1 and isinstance(n.targets[0], ast.Name) and isinstance(n.value, ast.Constant):
+            consts[n.targets[0].id] = n.value.value
+
+    def lit(e):
+        if isinstance(e, ast.Call) and isinstance(e.func, ast.Name) and e.func.id in ("frozenset", "set") and len(e.args) == 1:
+            return set(lit(e.args[0]))
+        if isinstance(e, ast.Name) and e.id in consts:
+            return consts[e.id]
+        return ast.literal_eval(e)
+
+    try:
+        kw = {k.arg: lit(k.value) for k in call.keywords}
+        trans, init, finals, sigma = kw["transitions"], kw["initial_state"], set(kw["final_states"]), set(kw["input_symbols"])
+    except Exception as exc:  # noqa: BLE001
+        return [_rec(name, "language", f.qualname, "undecided", f"table is not a literal: {exc}")]
+    if sigma != set("ULDR"):
+        return [_rec(name, "language", f.qualname, "refuted", f"alphabet is {sorted(sigma)}, not U, L, D, R")]
+    # spec automaton: state = kind of the last letter ('' start, 'V', 'H') or dead
+    def spec_step(st, ch):
+        kind = "V" if ch in "UD" else "H"
+        return "dead" if st == "dead" or st == kind else kind
+
+    seen = {(init, "")}
+    todo = [(init, "", "")]
+    while todo:
+        q, sp, word = todo.pop(0)
+        if (q in finals) != (sp != "dead"):
+            return [_rec(name, "language", f.qualname, "refuted",
+                         f"distinguishing word {word!r}: the automaton {'accepts' if q in finals else 'rejects'} it, "
+                         f"the definition of M says {'member' if sp != 'dead' else 'not a member'}")]
+        for ch in "ULDR":
+            try:
+                q2 = trans[q][ch]
+            except KeyError:
+                return [_rec(name, "language", f.qualname, "refuted", f"transition table is partial at state {q}, letter {ch}")]
+            nxt = (q2, spec_step(sp, ch))
+            if nxt not in seen:
+                seen.add(nxt)
+                todo.append((q2, nxt[1], word + ch))
+    return [_rec(name, "language", f.qualname, "discharged", f"product construction over {len(seen)} reachable state pairs: language equals M exactly")]
+
+
 def run_for(prop):
     """Structural obligations serving a property."""
     t0 = time.time()
@@ -574,6 +633,7 @@ def run_for(prop):
             recs += lru_purity(idx, q)
     if prop == "C15":
         recs += lru_purity(idx, "PinWords.make_dfa_for_m")
+        recs += m_language(idx)
     if prop in ("C04", "C10", "C11"):
         recs += closed_world(idx)[:1]
     if prop in ("C04", "C18", "C06", "C03"):
